@@ -1,7 +1,7 @@
 (* C01 - Curve evaluation equals the Bernstein definition. Statements only. *)
-From Coq Require Import List Arith QArith Qcanon Reals.
+From Coq Require Import List Arith ZArith QArith Qcanon Reals.
 From BZ Require Import Base.Ops Base.QcInst Base.RInst Model.Curve Model.CurvePy Gen.PyCurveHelpers
-  Theory.CurveEval Theory.CurveEvalExtra Theory.CurveTables.
+  Theory.CurveEval Theory.CurveEvalExtra Theory.CurveTables Theory.Rounding Theory.CurveRound Theory.CurveRoundVS.
 Import ListNotations.
 
 (* de Casteljau = Bernstein definition: every degree, any commutative ring *)
@@ -64,3 +64,31 @@ Print Assumptions C01_point_in_bounding_box.
 
 Example C01_example : evaluate_multi_py (qcs [0; 1; 3; 2]%Q) (qcs [0; 1#2; 1; 2]%Q) = qcs [0; 7#4; 2; -14]%Q.
 Proof. apply vec_eqb_eq. vm_compute. reflexivity. Qed.
+
+(* ROUNDING: the model of evaluate_multi_barycentric, executed in ANY arithmetic `fl` with relative error at most u per
+   operation (standard model of floating point: no overflow, underflow or NaN) that represents exactly the integers
+   whose odd part is below 2^53 (as binary64 does), with lambda1 = fl(1 - s) as evaluate_multi computes it, differs from
+   the Bernstein definition by at most ((1+u)^(3n+2) - 1) sum_j |C(n,j) (1-s)^(n-j) s^j| |v_j|.
+   Every degree n >= 1, every net, every parameter; both sides of the algorithm switch read from the source. *)
+Theorem C01_rounding_error_bound :
+  forall (u : R) (fl : R -> R), (0 <= u)%R ->
+  (forall x, (Rabs (fl x - x) <= u * Rabs x)%R) ->
+  (forall z : Z, repr53 z = true -> fl (IZR z) = IZR z) ->
+  forall (v : list R) (s : R), (2 <= length v)%nat -> (Z.of_nat (length v) < 2 ^ 53)%Z ->
+  (Rabs (eval_bary (FlOps fl) vs_max_nodes v (osub (FlOps fl) 1%R s) s - bernstein ROps v (1 - s) s)
+   <= ((1 + u) ^ (3 * (length v - 1) + 2) - 1) * bernstein ROps (map Rabs v) (Rabs (1 - s)) (Rabs s))%R.
+Proof.
+  intros u fl Hu Hs Hi v s Hl Hz.
+  exact (eval_bary_rounding u Hu fl Hs Hi vs_max_nodes v s Hl Hz running_binomial_exact_below_switch).
+Qed.
+Print Assumptions C01_rounding_error_bound.
+(* the rounded evaluation above is literally what evaluate_multi does in that arithmetic *)
+Theorem C01_rounded_model_is_evaluate_multi :
+  forall (fl : R -> R) (v : list R) (s : R),
+  eval_multi (FlOps fl) vs_max_nodes v [s] = [eval_bary (FlOps fl) vs_max_nodes v (osub (FlOps fl) 1%R s) s].
+Proof. reflexivity. Qed.
+Print Assumptions C01_rounded_model_is_evaluate_multi.
+(* the hypotheses are satisfiable (exact arithmetic, u = 0) *)
+Example C01_rounding_hypotheses_satisfiable :
+  (forall x, (Rabs ((fun y => y) x - x) <= 0 * Rabs x)%R) /\ (forall z : Z, repr53 z = true -> (fun y : R => y) (IZR z) = IZR z).
+Proof. split; [intros x; replace (x - x)%R with 0%R by ring; rewrite Rabs_R0; apply Req_le; ring | reflexivity]. Qed.
